@@ -149,6 +149,30 @@ pub fn local_time(
     Ok(helpers::local_time(unix_time, utc_offset, microsecond))
 }
 
+/// Brings a day that left its month (after a shift to UTC) back into the calendar.
+fn normalize_day(dtinfo: &mut DateTimeInfo) {
+    if dtinfo.day < 1 {
+        dtinfo.month -= 1;
+
+        if dtinfo.month < 1 {
+            dtinfo.month = 12;
+            dtinfo.year -= 1;
+        }
+
+        dtinfo.day = DAYS_PER_MONTHS[usize::from(helpers::is_leap(dtinfo.year))][dtinfo.month as usize];
+    } else if dtinfo.day
+        > DAYS_PER_MONTHS[usize::from(helpers::is_leap(dtinfo.year))][dtinfo.month as usize]
+    {
+        dtinfo.day = 1;
+        dtinfo.month += 1;
+
+        if dtinfo.month > 12 {
+            dtinfo.month = 1;
+            dtinfo.year += 1;
+        }
+    }
+}
+
 #[pyfunction]
 pub fn precise_diff<'py>(
     dt1: &Bound<'py, PyAny>,
@@ -205,7 +229,7 @@ pub fn precise_diff<'py>(
             if dtinfo1.second < 0 {
                 dtinfo1.second += 60;
                 dtinfo1.minute -= 1;
-            } else if dtinfo1.second > 60 {
+            } else if dtinfo1.second >= 60 {
                 dtinfo1.second -= 60;
                 dtinfo1.minute += 1;
             }
@@ -213,7 +237,7 @@ pub fn precise_diff<'py>(
             if dtinfo1.minute < 0 {
                 dtinfo1.minute += 60;
                 dtinfo1.hour -= 1;
-            } else if dtinfo1.minute > 60 {
+            } else if dtinfo1.minute >= 60 {
                 dtinfo1.minute -= 60;
                 dtinfo1.hour += 1;
             }
@@ -221,10 +245,12 @@ pub fn precise_diff<'py>(
             if dtinfo1.hour < 0 {
                 dtinfo1.hour += 24;
                 dtinfo1.day -= 1;
-            } else if dtinfo1.hour > 24 {
+            } else if dtinfo1.hour >= 24 {
                 dtinfo1.hour -= 24;
                 dtinfo1.day += 1;
             }
+
+            normalize_day(&mut dtinfo1);
         }
 
         dtinfo1.total_seconds = dtinfo1.hour * SECS_PER_HOUR as i32
@@ -250,7 +276,7 @@ pub fn precise_diff<'py>(
             if dtinfo2.second < 0 {
                 dtinfo2.second += 60;
                 dtinfo2.minute -= 1;
-            } else if dtinfo2.second > 60 {
+            } else if dtinfo2.second >= 60 {
                 dtinfo2.second -= 60;
                 dtinfo2.minute += 1;
             }
@@ -258,7 +284,7 @@ pub fn precise_diff<'py>(
             if dtinfo2.minute < 0 {
                 dtinfo2.minute += 60;
                 dtinfo2.hour -= 1;
-            } else if dtinfo2.minute > 60 {
+            } else if dtinfo2.minute >= 60 {
                 dtinfo2.minute -= 60;
                 dtinfo2.hour += 1;
             }
@@ -266,10 +292,12 @@ pub fn precise_diff<'py>(
             if dtinfo2.hour < 0 {
                 dtinfo2.hour += 24;
                 dtinfo2.day -= 1;
-            } else if dtinfo2.hour > 24 {
+            } else if dtinfo2.hour >= 24 {
                 dtinfo2.hour -= 24;
                 dtinfo2.day += 1;
             }
+
+            normalize_day(&mut dtinfo2);
         }
 
         dtinfo2.total_seconds = dtinfo2.hour * SECS_PER_HOUR as i32
